@@ -8,12 +8,12 @@ from vlib.kitchen import run_cases, json_eq, Docs, Case
 PROPS_FILE = "Props/C09.v"
 DEFAULTS = [
     ({"type": "string"}, "hello"), ({"type": "string", "minLength": 2}, "abc"), ({"type": "integer"}, 7), ({"type": "integer", "minimum": 1, "maximum": 9}, 5),
-    ({"type": "number"}, 2.5), ({"type": "number", "multipleOf": 0.5}, 1.5), ({"type": "boolean"}, True), ({}, "free"), ({}, 12),
+    ({"type": "number"}, 2.5), ({"type": "number"}, 0.5), ({"type": "number"}, -0.25), ({"type": "number", "minimum": 0, "maximum": 1}, 0.75), ({"type": "integer"}, -1), ({"type": "number", "multipleOf": 0.5}, 1.5), ({"type": "boolean"}, True), ({}, "free"), ({}, 12),
     ({"type": "array", "items": {"type": "string"}}, ["a", "b"]), ({"type": "array", "items": {"type": "integer"}}, [1, 2, 3]),
     ({"type": "array", "items": {"type": "number"}}, [0.5]), ({"type": "string", "enum": ["red", "green", "blue"]}, "green"),
     ({"enum": ["on", "off"]}, "off"), ("REF-ENUM", "q"), ("REF-STR", "xyz"),
 ]
-OTHER = {"hello": "other", "abc": "zz", 7: 8, 5: 6, 2.5: 3.5, 1.5: 2.0, True: False, "free": "bound", 12: 13, "green": "blue", "off": "on", "q": "p", "xyz": "abcd"}
+OTHER = {0.5: 1.5, -0.25: 2.5, 0.75: 0.25, -1: 3, "hello": "other", "abc": "zz", 7: 8, 5: 6, 2.5: 3.5, 1.5: 2.0, True: False, "free": "bound", 12: 13, "green": "blue", "off": "on", "q": "p", "xyz": "abcd"}
 
 
 def systematic():
